@@ -69,7 +69,7 @@ def config(m, extra_contracts=None):
     if extra_contracts:
         c.update(extra_contracts)
     return {"reportRegion": "data", "reportLimit": 384, "wsetResetAfter": common.sym(m, "make_failure_token").name, "track": 512, "fields": fields, "contracts": c, "maxPaths": 400000, "maxSteps": 60000000,
-            "widenAfter": 3, "dedupe": True, "frameForkWiden": 0, "ptrWidenAfter": 40, "fmtForkMax": 24}
+            "widenAfter": 3, "dedupe": True, "frameForkWiden": 0, "ptrWidenAfter": 40, "fmtForkMax": 24, "forkyLoop": 64}
 
 
 def crypt_cell(cid, entry, prefix, tailset=None, phrase_len=(0, (1 << 31) - 1), setting_extra=(0, (1 << 31) - 1), size=None,
